@@ -37,7 +37,7 @@ import bisect, hashlib, json, os, re, subprocess, sys
 
 ROOT = os.path.dirname(os.path.dirname(os.path.abspath(__file__)))
 FILES = ["cgnslib.c", "cgns_internals.c", "cgns_io.c", "cgns_error.c"]
-VERSION = "7"
+VERSION = "9"
 
 ERR_FUNCS = {"cgi_error", "cg_io_error", "set_error"}
 # libc / compiler calls that neither touch the file nor (unless their destination is a tree pointer) the tree
@@ -278,6 +278,7 @@ class Walker:
             self.unparsed.append("local_mode is not the first parameter")
         self.lm = False
         self.vg = {}
+        self.mptr = set()       # local pointers of plain type (int *, char *, double *) that alias the tree
 
     # ---- source text
     def text(self, n):
@@ -317,6 +318,8 @@ class Walker:
             return self.is_mirror_lvalue(base)
         if k == "UnaryOperator" and n.get("opcode") == "*":
             return self.is_mirror_ptr(kids(n)[0])
+        if k == "DeclRefExpr" and n["referencedDecl"]["name"] in self.mptr:
+            return True             # p[i] with p a tainted local (reached through ArraySubscriptExpr)
         return False
 
     def is_mirror_ptr(self, n):
@@ -326,6 +329,10 @@ class Walker:
             # a parameter/local of tree type points into the tree; function-local temporaries are over-approximated
             return True
         k = n0.get("kind")
+        if k == "DeclRefExpr" and n0["referencedDecl"]["name"] in self.mptr:
+            return True
+        if k == "CallExpr" and re.match(r"cgi_\w+_address$|cgi_get_\w+$", callee_name(n0) or ""):
+            return True
         if k == "MemberExpr":
             return self.is_mirror_lvalue(n0)
         if k == "UnaryOperator" and n0.get("opcode") == "&":
@@ -353,6 +360,12 @@ class Walker:
                 self.expr(b, depth, mg)
                 self.expr(a, depth, mg)
                 la = strip(a)
+                if la.get("kind") == "DeclRefExpr" and op == "=" and qual(la).strip().endswith("*") and \
+                        la["referencedDecl"].get("kind") == "VarDecl":
+                    if self.is_mirror_ptr(b):
+                        self.mptr.add(la["referencedDecl"]["name"])
+                    else:
+                        self.mptr.discard(la["referencedDecl"]["name"])
                 if la.get("kind") == "DeclRefExpr":
                     evs = [i for i in range(n0, len(self.ev)) if self.ev[i]["k"] in ("GetFile", "CheckMode", "Validate", "Call")]
                     if evs:
@@ -683,40 +696,82 @@ def or_chain(n):
     return [n0]
 
 
+NEG = {">": "<=", "<=": ">", ">=": "<", "<": ">=", "==": "!=", "!=": "=="}
+FLIP = {"<": ">", "<=": ">=", ">": "<", ">=": "<=", "==": "==", "!=": "!="}
+
+
 def getter_rows(fn, w):
-    """one row per non-null return of an index getter: how the returned element is selected and which check guards it"""
+    """one row per non-null return of an index getter: how the returned element is selected and which test guards it.
+    Tests are collected in REJECT form: `if (i > n || i <= 0) return NULL;` as written, an enclosing accepting
+    `if (i > 0 && i <= n) { return &a[i-1]; }` negated, an enclosing `for (i = 0; i < n; i++)` as a loop bound."""
     rows = []
     params = [p["name"] for p in kids(fn) if p.get("kind") == "ParmVarDecl" and "name" in p]
-    checks = []          # (line, [(op, lhs path, rhs path/int)]) of every always-returning-NULL if
 
-    def scan(s):
+    def cmps(nodes, negate):
+        cs = []
+        for c in nodes:
+            cm = cmp_of(c, params)
+            if cm:
+                op, a, b = cm
+                pa, pb = member_path(a), member_path(b)
+                va, vb = int_value(a), int_value(b)
+                if negate:
+                    op = NEG[op]
+                cs.append((op, pa if pa else va, pb if pb else vb))
+            else:
+                cs.append(("?", w.text(c)[:40], None))
+        return cs
+
+    def scan(s, checks, loops):
         k = s.get("kind")
+        if k == "CompoundStmt":
+            checks = list(checks)
+            for c in kids(s):
+                scan(c, checks, loops)
+                if c.get("kind") == "IfStmt":
+                    ks = kids(c)
+                    if always_returns(ks[1]) and not c.get("hasElse"):
+                        checks.append(cmps(or_chain(ks[0]), False))        # later statements run only if every disjunct is false
+            return
         if k == "IfStmt":
             ks = kids(s)
-            if always_returns(ks[1]):
-                cs = []
-                for c in or_chain(ks[0]):
-                    cm = cmp_of(c, params)
-                    if cm:
-                        op, a, b = cm
-                        pa, pb = member_path(a), member_path(b)
-                        va, vb = int_value(a), int_value(b)
-                        cs.append((op, pa if pa else va, pb if pb else vb))
-                    else:
-                        cs.append(("?", w.text(c)[:40], None))
-                checks.append((w.line(s), cs))
+            scan(ks[1], checks + [[x] for x in cmps(and_chain(ks[0]), True)], loops)    # inside: every conjunct holds
+            if s.get("hasElse") and len(ks) > 2:
+                scan(ks[2], checks + ([cmps(or_chain(ks[0]), False)] if True else []), loops)
+            return
+        if k == "ForStmt":
+            ks = s.get("inner", [])
+            lv = None
+            cond = ks[2] if len(ks) > 2 else None
+            if cond:
+                cm = cmp_of(cond, params)
+                if cm and cm[0] == "<":
+                    a, b2 = member_path(cm[1]), member_path(cm[2])
+                    init = ks[0]
+                    iv = None
+                    if init and strip(init).get("kind") == "BinaryOperator" and strip(init).get("opcode") == "=":
+                        x, y = kids(strip(init))
+                        if member_path(x) == a and int_value(y) == 0:
+                            iv = 0
+                    if a and b2 and iv == 0:
+                        lv = (a, b2)
+            body = ks[-1]
+            if body:
+                scan(body, checks, loops + ([lv] if lv else []))
+            return
         if k == "ReturnStmt":
             ks = kids(s)
             if ks:
                 e = strip(ks[0])
                 if int_value(e) is None:
-                    rows.append((w.line(s), e, list(checks)))
+                    rows.append((w.line(s), e, [c for c in checks], list(loops)))
+            return
         for c in kids(s):
-            scan(c)
+            scan(c, checks, loops)
     body = [c for c in kids(fn) if c.get("kind") == "CompoundStmt"][0]
-    scan(body)
+    scan(body, [], [])
     out = []
-    for line, e, cks in rows:
+    for line, e, cks, loops in rows:
         e0 = e
         if e0.get("kind") == "UnaryOperator" and e0.get("opcode") == "&":
             e0 = strip(kids(e0)[0])
@@ -730,31 +785,37 @@ def getter_rows(fn, w):
                 idx, sub = member_path(x), int_value(y)
                 if sub is not None and b0["opcode"] == "-":
                     sub = -sub
-            elif b0.get("kind") == "DeclRefExpr":
+            else:
                 idx, sub = member_path(b0), 0
             if idx is None or sub is None or arr is None or "->" not in arr:
                 out.append(dict(kind="Other", getter=fn["name"], line=line, text=w.text(e)[:60]))
                 continue
             parent, arrf = arr.rsplit("->", 1)
+            lp = [l for l in loops if l[0] == idx and l[1].startswith(parent + "->")]
+            if lp and sub == 0:
+                out.append(dict(kind="Loop", getter=fn["name"], line=line, idx=idx, parent=parent, arr=arrf, cnt=lp[-1][1].rsplit("->", 1)[1]))
+                continue
             hi = lo = None
-            for _, cs in cks:
+            for cs in cks:
+                if len(cs) > 2:
+                    continue
                 for op, a_, b_ in cs:
                     if a_ == idx and isinstance(b_, str) and b_.startswith(parent + "->"):
                         hi = (op, b_.rsplit("->", 1)[1])
-                    elif a_ == idx and isinstance(b_, int):
+                    elif a_ == idx and isinstance(b_, int) and not isinstance(b_, bool):
                         lo = (op, b_)
                     elif b_ == idx and isinstance(a_, str) and a_.startswith(parent + "->"):
-                        flip = {"<": ">", "<=": ">=", ">": "<", ">=": "<=", "==": "==", "!=": "!="}[op]
-                        hi = (flip, a_.rsplit("->", 1)[1])
-            if idx not in params or hi is None or lo is None:
-                out.append(dict(kind="Other", getter=fn["name"], line=line,
-                                text="unchecked index: " + w.text(e)[:50]))
+                        hi = (FLIP[op], a_.rsplit("->", 1)[1])
+                    elif b_ == idx and isinstance(a_, int):
+                        lo = (FLIP[op], a_)
+            if hi is None or lo is None or hi[0] == "?" or lo[0] == "?":
+                out.append(dict(kind="Other", getter=fn["name"], line=line, text="unchecked index: " + w.text(e)[:50]))
                 continue
             out.append(dict(kind="Idx", getter=fn["name"], line=line, idx=idx, parent=parent, arr=arrf, cnt=hi[1],
                             hi_op=hi[0], lo_op=lo[0], lo_val=lo[1], sub=sub))
         elif e0.get("kind") == "MemberExpr":
             p = member_path(e0)
-            ok = any(any((a_ == p and b_ == 0 and op == "==") for op, a_, b_ in cs) for _, cs in cks)
+            ok = any(any((a_ == p and b_ == 0 and op == "==") for op, a_, b_ in cs) for cs in cks)
             out.append(dict(kind="Single", getter=fn["name"], line=line, field=p, checked=ok))
         elif e0.get("kind") == "DeclRefExpr":
             out.append(dict(kind="Var", getter=fn["name"], line=line, var=e0["referencedDecl"]["name"]))
@@ -767,11 +828,20 @@ ALLOC_RE = re.compile(r"(\w+(?:\[\w+\])?)\s*(?:->|\.)\s*(\w+)\s*=\s*CGNS_NEW\s*\
 
 
 def alloc_pairs(src):
-    """(count field, array field) of every  X->arr = CGNS_NEW(type, X->cnt)  (same X): where the arrays get their size"""
+    """(count field, array field) pairs taken from where the arrays get their size:
+       X->arr = CGNS_NEW(type, X->cnt)                       allocation by the readers
+       X->arr = CGNS_RENEW(type, X->cnt+1, X->arr)            growth by the writers
+       cgi_read_xxx(.., &X->cnt, &X->arr)                     readers that allocate through (int *n, T **a)"""
     s = set()
     for m in ALLOC_RE.finditer(src):
         if m.group(1) == m.group(3):
             s.add((m.group(4), m.group(2)))
+    for m in re.finditer(r"(\w+)\s*->\s*(\w+)\s*=\s*CGNS_RENEW\s*\(\s*\w+\s*,\s*(\w+)\s*->\s*(\w+)\s*\+\s*1\s*,\s*(\w+)\s*->\s*(\w+)\s*\)", src):
+        if m.group(1) == m.group(3) == m.group(5) and m.group(2) == m.group(6):
+            s.add((m.group(4), m.group(2)))
+    for m in re.finditer(r"&\s*(\w+)\s*->\s*(n\w+)\s*,\s*&\s*(\w+)\s*->\s*(\w+)\s*\)", src):
+        if m.group(1) == m.group(3):
+            s.add((m.group(2), m.group(4)))
     return sorted(s)
 
 
@@ -945,6 +1015,8 @@ def coq_gen(d):
         if r["kind"] == "Idx":
             g.append(" GIdx %s %s %s %s %s %s %s (%d) (%d)" % (cs(r["getter"]), cs(r["idx"]), cs(r["parent"]), cs(r["cnt"]),
                                                             cs(r["arr"]), opn[r["hi_op"]], opn[r["lo_op"]], r["lo_val"], r["sub"]))
+        elif r["kind"] == "Loop":
+            g.append(" GLoop %s %s %s %s" % (cs(r["getter"]), cs(r["parent"]), cs(r["cnt"]), cs(r["arr"])))
         elif r["kind"] == "Single":
             g.append(" GSingle %s %s %s" % (cs(r["getter"]), cs(r["field"]), cb(r["checked"])))
         elif r["kind"] == "Var":
